@@ -10,6 +10,9 @@ fn main() {
     let rest: Vec<String> = args[2..].to_vec();
     let out: Vec<String> = match args[1].as_str() {
         "c12_gap" => profirust::fdl::__verif_native_active::c12_gap(&rest, seed),
+        "c10_decode" => profirust::fdl::__verif_native_telegram::c10_decode(&rest, seed),
+        "c10_first_byte" => profirust::fdl::__verif_native_telegram::c10_first_byte(&rest, seed),
+        "c09_roundtrip" => profirust::fdl::__verif_native_telegram::c09_roundtrip(&rest, seed),
         other => {
             eprintln!("unknown oracle {other}");
             std::process::exit(2);
